@@ -347,6 +347,10 @@ def mk_term(t, engine=None):
         return fl.Constant(t["name"], t["value"])
     if t["kind"] == "linear":
         return fl.Linear(t["name"], list(t["coeffs"]), engine)
+    if t["kind"] == "function":
+        # implementation-only streams (C13 copy-graph): the engine model has no Function terms (`term_sx` rejects them)
+        return fl.Function(t["name"], t["formula"], engine if t.get("with_engine", True) else None,
+                           variables=dict(t["variables"]), load=True)
     raise AssertionError(t)
 
 
